@@ -29,7 +29,8 @@ pub fn main(sub: &str, args: &[String]) -> i32 {
     // in-process drivers: a hang or an abort of the code under test becomes a "crash" event (util.rs watchdog)
     if let Some(path) = arg_value(args, "--watch") {
         if sub != "xp-total" && sub != "xp-worker" {
-            watchdog_start(path, 30, arg_flag(args, "--sync"));
+            watchdog_start(path, 120, arg_flag(args, "--sync"));
+            heartbeat(|| json!({"k": "crash", "expr": string_to_cps("(harness start-up)"), "text": []}).to_string());
         }
     }
     match sub {
